@@ -109,20 +109,39 @@ class Portfolio:
         self.solver_time = {}
         self.lock = threading.Lock()
         self.n = 0
+        self.cache = {}
 
     def _acct(self, s, t):
         with self.lock:
             self.solver_time[s] = self.solver_time.get(s, 0.0) + t
 
     def solve_text(self, txt, txt_cvc5, tag):
-        """returns (verdict, solver, seconds, answers)"""
+        """returns (verdict, solver, seconds, answers); identical queries are solved once"""
         h = hashlib.sha1(txt.encode()).hexdigest()[:16]
-        path = os.path.join(self.workdir, "%s-%s.smt2" % (tag, h))
+        with self.lock:
+            ent = self.cache.get(h)
+            owner = ent is None
+            if owner:
+                ent = self.cache[h] = dict(ev=threading.Event(), res=None)
+        if not owner:
+            ent["ev"].wait()
+            v, who, secs, answers = ent["res"]
+            return v, who, 0.0, dict(answers, shared=True)
+        try:
+            res = self._solve_text(txt, txt_cvc5, tag, h)
+        except Exception as ex:
+            res = ("unknown", None, 0.0, {"exception": repr(ex)})
+        ent["res"] = res
+        ent["ev"].set()
+        return res
+
+    def _solve_text(self, txt, txt_cvc5, tag, h):
+        path = os.path.join(self.workdir, "%s-%s-%d.smt2" % (tag, h, os.getpid()))
         with open(path, "w") as f:
             f.write(txt)
         path5 = None
         if txt_cvc5 is not None:
-            path5 = os.path.join(self.workdir, "%s-%s.cvc5.smt2" % (tag, h))
+            path5 = os.path.join(self.workdir, "%s-%s-%d.cvc5.smt2" % (tag, h, os.getpid()))
             with open(path5, "w") as f:
                 f.write(txt_cvc5)
         t0 = time.time()
